@@ -138,6 +138,10 @@ def run(db, chk) -> None:
             sm = H.shared_state_mutations(tfm, tfm.func(cq))
             chk.ob("C02.R1-side-tables", f"{cq}: the side predicate is computed from the symbol table passed in, with no state kept across calls", not sm, tfm.loc(tfm.func(cq)), found=sm, accepted="no module-/class-level cache",
                    why="ids cached per table object go stale when the table grows or its id() is reused: sync events are then put on the wrong side")
+    from .c11 import id_truthiness_sites
+    tr_, nl_ = id_truthiness_sites(db, modules={"hta.common.trace_filter", "hta.common.trace"})
+    chk.ob("C02.R1-side-tables", f"the side predicates never test a symbol id for truthiness ({nl_} lookups in trace_filter / trace)", not tr_ and nl_ >= 2, "hta/common/trace_filter.py", found=tr_ or "none",
+           accepted="`.get(name, -1)` sentinels, no `if id` / `id or default`", why="when 'Event Sync' happens to be symbol 0, `if sym_id_map.get(name)` drops it: sync records change sides and lose their links")
     chk.floor("C02.R1-side-tables", 1)
     chk.floor("C02.R3-mutual-stores", 2)
 
